@@ -7,9 +7,11 @@ import (
 
 	"verif/harness/internal/difflab"
 	"verif/harness/internal/ev"
+	"verif/harness/internal/genlab"
 )
 
 var checks = map[string]func(run *ev.Run){
+	"C11": genlab.CheckC11,
 	"C12": difflab.CheckC12,
 	"C13": difflab.CheckC13,
 	"C14": difflab.CheckC14,
